@@ -376,12 +376,39 @@ func firstStart(b []byte) (xml.StartElement, error) {
 	}
 }
 
+func enumerate(alpha []string, n int, f func([]string)) {
+	cur := make([]string, n)
+	var rec func(i int)
+	rec = func(i int) {
+		if i == n {
+			f(append([]string(nil), cur...))
+			return
+		}
+		for _, a := range alpha {
+			cur[i] = a
+			rec(i + 1)
+		}
+	}
+	rec(0)
+}
+
 func uniqueAttrs(as []xml.Attr) map[xml.Name]bool {
 	m := map[xml.Name]bool{}
 	for _, a := range as {
 		m[a.Name] = true
 	}
 	return m
+}
+
+// runTag compares the model's start-tag reader with encoding/xml on one start tag.
+func runTag(r *common.Run, tag string, class string) {
+	obs := "MALFORMED"
+	if t, err := firstStart([]byte(tag)); err == nil {
+		obs = canonStart(t)
+	}
+	line := "tag " + common.HexS(tag)
+	r.Line(line, obs)
+	r.Case(line, obs != "MALFORMED", class)
 }
 
 // ---- neg: header acceptance and address checks over restarts ---------------------------
@@ -1369,6 +1396,26 @@ func Run(r *common.Run) error {
 		runHdr(r, hdrCase{recv: rnd.Bool(), ws: rnd.Bool(), s2s: rnd.Bool(), loc: "example.net", orig: j.String(), lang: lang}, "hdr-random")
 	}
 
+	// ---- tag: attribute values, line ends and references, exhaustive small scope ----
+	pieces := []string{"a", "\r", "\n", "\t", " ", "&#xD;", "&#xA;", "&#13;", "&#9;", "&amp;", "&lt;", "&quot;", "é", "<", "&", "&bogus;", "&#x110000;", "&#0;"}
+	maxLen := r.Pick(3, 4)
+	for _, q := range []string{"'", "\""} {
+		other := "\""
+		if q == "\"" {
+			other = "'"
+		}
+		ps := append(append([]string{}, pieces...), other)
+		for n := 0; n <= maxLen; n++ {
+			if n == 4 {
+				ps = []string{"a", "\r", "\n", "\t", "&#xD;", "&#xA;", "&amp;", other}
+			}
+			enumerate(ps, n, func(v []string) {
+				runTag(r, "<a x="+q+strings.Join(v, "")+q+" y='1'>", "tag")
+			})
+		}
+	}
+	r.Exhaustive = append(r.Exhaustive, fmt.Sprintf("attribute values: every sequence of <= %d pieces out of raw CR/LF/TAB/space, character references to them, entities, the other quote, non-ASCII, and malformed pieces, both quote styles: model reader vs encoding/xml", maxLen))
+
 	// ---- neg: single headers, every variant x role x framing ----
 	for _, ws := range []bool{false, true} {
 		for _, recv := range []bool{false, true} {
@@ -1527,6 +1574,9 @@ func replayLine(r *common.Run, l string) error {
 		} else {
 			runHdr(r, hdrCase{recv: true, ws: ws, s2s: s2s, loc: from, orig: to, lang: lang}, "replay")
 		}
+		return nil
+	case f[0] == "tag" && len(f) == 2:
+		runTag(r, un(f[1]), "replay")
 		return nil
 	case f[0] == "bindc" && len(f) == 7:
 		runBindClient(r, un(f[1]), f[2], un(f[3]), un(f[4]), "replay")
